@@ -161,18 +161,21 @@ Notify(H, mid, h) ==
   IF h.t \in NoNotice THEN {H}
   ELSE FwdAll(H, Hdr(FAILED, 0, 0, 0, [k |-> "failed", mid |-> mid, ft |-> h.t, fsrc |-> h.src, fdst |-> h.dst]))
 
-(* send_to_loggers *)
-RECURSIVE LogSeq(_, _, _)
-LogSeq(H, h, p) ==
-  IF Len(p) = 0 THEN {H}
+(* send_to_loggers: same notice timing as forward_message *)
+RECURSIVE LogSeq(_, _, _, _)
+LogSeq(H, h, p, pend) ==
+  IF Len(p) = 0 THEN Post(H, h, pend)
   ELSE LET m == Head(p)  rest == Tail(p) IN
-    IF m \notin Live(H) THEN LogSeq(H, h, rest)
-    ELSE IF m \in H.dead THEN UNION {LogSeq(H2, h, rest) : H2 \in Attempt(H, m, h)}
-    ELSE LogSeq(Deliver(H, m, h), h, rest)
+    IF m \notin Live(H) THEN LogSeq(H, h, rest, pend)
+    ELSE IF m \in H.dead
+         THEN IF H.mode = "inline"
+              THEN UNION {LogSeq(H2, h, rest, pend) : H2 \in Attempt(H, m, h)}
+              ELSE LogSeq(H, h, rest, Append(pend, <<"dead", m, H.mods[m].id>>))
+    ELSE LogSeq(Deliver(H, m, h), h, rest, pend)
 
 ToLoggers(H, h, L) ==
-  IF L \cap H.dead = {} THEN LogSeq(H, h, SetToSeq(L))
-  ELSE UNION {LogSeq(H, h, p) : p \in SetToSeqs(L)}
+  IF L \cap H.dead = {} THEN LogSeq(H, h, SetToSeq(L), <<>>)
+  ELSE UNION {LogSeq(H, h, p, <<>>) : p \in SetToSeqs(L)}
 
 (* MessageManager.send_ack: direct to the requester, then a copy to every logger.  A requester
    that is itself a logger may get one or two (open choice). *)
